@@ -2,7 +2,7 @@
 // Use of this source code is governed by a BSD-style
 // license that can be found in the LICENSE file.
 
-package interp
+package main
 
 // Values
 //
@@ -38,9 +38,6 @@ import (
 	"bytes"
 	"fmt"
 	"go/types"
-	"io"
-	"reflect"
-	"strings"
 	"sync"
 	"unsafe"
 
@@ -61,13 +58,6 @@ type iface struct {
 
 type structure []value
 
-// For map, array, *array, slice, string or channel.
-type iter interface {
-	// next returns a Tuple (key, value, ok).
-	// key and value are unaliased, e.g. copies of the sequence element.
-	next() tuple
-}
-
 type closure struct {
 	Fn  *ssa.Function
 	Env []value
@@ -75,9 +65,6 @@ type closure struct {
 
 type bad struct{}
 
-type rtype struct {
-	t types.Type
-}
 
 // Hash functions and equivalence relation:
 
@@ -184,14 +171,6 @@ func (x iface) hash(outer types.Type) int {
 	return hashType(x.t)*8581 + hash(outer, x.t, x.v)
 }
 
-func (x rtype) hash(_ types.Type) int {
-	return hashType(x.t)
-}
-
-func (x rtype) eq(_ types.Type, y interface{}) bool {
-	return types.Identical(x.t, y.(rtype).t)
-}
-
 // equals returns true iff x and y are equal according to Go's
 // linguistic equivalence relation for type t.
 // In a well-typed program, the dynamic types of x and y are
@@ -234,15 +213,15 @@ func equals(t types.Type, x, y value) bool {
 		return x == y.(string)
 	case *value:
 		return x == y.(*value)
-	case chan value:
-		return x == y.(chan value)
+	case *gchan:
+		return x == y.(*gchan)
+	case *gmap:
+		return x == y.(*gmap)
 	case structure:
 		return x.eq(t, y)
 	case array:
 		return x.eq(t, y)
 	case iface:
-		return x.eq(t, y)
-	case rtype:
 		return x.eq(t, y)
 	}
 
@@ -295,15 +274,13 @@ func hash(outer, t types.Type, x value) int {
 		return hashString(x)
 	case *value:
 		return int(uintptr(unsafe.Pointer(x)))
-	case chan value:
-		return int(uintptr(reflect.ValueOf(x).Pointer()))
+	case *gchan:
+		return int(uintptr(unsafe.Pointer(x)))
 	case structure:
 		return x.hash(t)
 	case array:
 		return x.hash(t)
 	case iface:
-		return x.hash(t)
-	case rtype:
 		return x.hash(t)
 	}
 	panic(fmt.Sprintf("unhashable type %v", outer))
@@ -338,26 +315,6 @@ func load(T types.Type, addr *value) value {
 	}
 }
 
-// store stores value v of type T into *addr.
-func store(T types.Type, addr *value, v value) {
-	switch T := T.Underlying().(type) {
-	case *types.Struct:
-		lhs := (*addr).(structure)
-		rhs := v.(structure)
-		for i := range lhs {
-			store(T.Field(i).Type(), &lhs[i], rhs[i])
-		}
-	case *types.Array:
-		lhs := (*addr).(array)
-		rhs := v.(array)
-		for i := range lhs {
-			store(T.Elem(), &lhs[i], rhs[i])
-		}
-	default:
-		*addr = v
-	}
-}
-
 // Prints in the style of built-in println.
 // (More or less; in gc println is actually a compiler intrinsic and
 // can distinguish println(1) from println(interface{}(1)).)
@@ -366,35 +323,31 @@ func writeValue(buf *bytes.Buffer, v value) {
 	case nil, bool, int, int8, int16, int32, int64, uint, uint8, uint16, uint32, uint64, uintptr, float32, float64, complex64, complex128, string:
 		fmt.Fprintf(buf, "%v", v)
 
-	case map[value]value:
+	case *gmap:
 		buf.WriteString("map[")
-		sep := ""
-		for k, e := range v {
-			buf.WriteString(sep)
-			sep = " "
-			writeValue(buf, k)
-			buf.WriteString(":")
-			writeValue(buf, e)
-		}
-		buf.WriteString("]")
-
-	case *hashmap:
-		buf.WriteString("map[")
-		sep := " "
-		for _, e := range v.entries() {
-			for e != nil {
+		if v != nil {
+			sep := ""
+			for k := range v.keys {
+				if !v.live[k] {
+					continue
+				}
 				buf.WriteString(sep)
 				sep = " "
-				writeValue(buf, e.key)
+				writeValue(buf, v.keys[k])
 				buf.WriteString(":")
-				writeValue(buf, e.value)
-				e = e.next
+				writeValue(buf, v.vals[k])
 			}
 		}
 		buf.WriteString("]")
 
-	case chan value:
-		fmt.Fprintf(buf, "%v", v) // (an address)
+	case *Term:
+		buf.WriteString("<sym " + v.String() + ">")
+
+	case sstring:
+		buf.WriteString("<symstring len " + fmt.Sprint(len(v)) + ">")
+
+	case *gchan:
+		fmt.Fprintf(buf, "%p", v) // (an address)
 
 	case *value:
 		if v == nil {
@@ -441,9 +394,6 @@ func writeValue(buf *bytes.Buffer, v value) {
 	case *ssa.Function, *ssa.Builtin, *closure:
 		fmt.Fprintf(buf, "%p", v) // (an address)
 
-	case rtype:
-		buf.WriteString(v.t.String())
-
 	case tuple:
 		// Unreachable in well-formed Go programs
 		buf.WriteString("(")
@@ -467,58 +417,3 @@ func toString(v value) string {
 	return b.String()
 }
 
-// ------------------------------------------------------------------------
-// Iterators
-
-type stringIter struct {
-	*strings.Reader
-	i int
-}
-
-func (it *stringIter) next() tuple {
-	okv := make(tuple, 3)
-	ch, n, err := it.ReadRune()
-	ok := err != io.EOF
-	okv[0] = ok
-	if ok {
-		okv[1] = it.i
-		okv[2] = ch
-	}
-	it.i += n
-	return okv
-}
-
-type mapIter struct {
-	iter *reflect.MapIter
-	ok   bool
-}
-
-func (it *mapIter) next() tuple {
-	it.ok = it.iter.Next()
-	if !it.ok {
-		return []value{false, nil, nil}
-	}
-	k, v := it.iter.Key().Interface(), it.iter.Value().Interface()
-	return []value{true, k, v}
-}
-
-type hashmapIter struct {
-	iter *reflect.MapIter
-	ok   bool
-	cur  *entry
-}
-
-func (it *hashmapIter) next() tuple {
-	for {
-		if it.cur != nil {
-			k, v := it.cur.key, it.cur.value
-			it.cur = it.cur.next
-			return []value{true, k, v}
-		}
-		it.ok = it.iter.Next()
-		if !it.ok {
-			return []value{false, nil, nil}
-		}
-		it.cur = it.iter.Value().Interface().(*entry)
-	}
-}
